@@ -106,5 +106,6 @@ func (hdl httpHandler) ServeHTTP(rw http.ResponseWriter, req *http.Request) {
 }
 
 func (hdl httpHandler) handleError(ctx context.Context, err error, req *kmip.RequestMessage) *kmip.ResponseMessage {
-	return handleMessageError(ctx, req, err)
+	// A request that cannot be decoded is an invalid message, as on the TTLV socket server.
+	return handleMessageError(ctx, req, Errorf(kmip.ResultReasonInvalidMessage, "%s", err.Error()))
 }
